@@ -6,7 +6,7 @@ CONSTANTS
   MethodNames = {"f"}
   SelfKinds = {"pk", "po", "none"}
   BaseNaming = "pos"
-  FixedMemberWithoutSelf = TRUE
+  FixedMemberWithoutSelf = FALSE
   RMutant = "none"
   MaxExpected = 1
   MaxActual = 1
@@ -16,5 +16,5 @@ CONSTANTS
   TypeRanks = {9}
   RetRanks = {9}
   SCMutant = "none"
-INVARIANT ProtocolSoundStrict
+INVARIANT ProtocolSound
 CHECK_DEADLOCK FALSE
